@@ -1,7 +1,7 @@
 (* C12 - Nesting follows indentation order; layout noise is irrelevant.
    Only statements here; proofs are in Proofs/PreParse*.v. *)
 Require Import BB.Base.Str BB.Gen.TablesParser BB.Model.PreParse BB.Model.PreParseSpec.
-Require Import BB.Proofs.PreParseNF BB.Proofs.PreParseInvariance BB.Proofs.PreParseScale.
+Require Import BB.Proofs.PreParseNF BB.Proofs.PreParseInvariance BB.Proofs.PreParseScale BB.Proofs.PreParseTrailing.
 
 (* For every text over the alphabet: the first content line is at depth 0 and, for every two
    consecutive non-blank lines with indentation widths w, w' and depths d, d' (depth = number of
@@ -29,6 +29,13 @@ Theorem C12_outer_whitespace_irrelevant : forall size a s b,
   pre_parse size (a ++ s ++ b) = pre_parse size s.
 Proof. exact outer_whitespace_irrelevant. Qed.
 Print Assumptions C12_outer_whitespace_irrelevant.
+
+(* spaces at the end of a line are irrelevant, for all texts, every line break in them and any number of
+   spaces in front of it (spaces at the very end of the text are covered by the theorem above) *)
+Theorem C12_trailing_spaces_irrelevant : forall size a n b,
+  pre_parse size (a ++ repeat SP n ++ NL :: b) = pre_parse size (a ++ NL :: b).
+Proof. exact trailing_spaces_irrelevant. Qed.
+Print Assumptions C12_trailing_spaces_irrelevant.
 
 (* multiplying all indentation by a constant k >= 1 changes nothing, for every text in cleaned form
    (lines without tab, not ending in a space, first and last character of the text not blank) and every
